@@ -6,6 +6,11 @@ PLAN = dict(
         step("heap-x86", "codegen-x86", "heap-x86", 150, 6000, shards_thorough=12, viol=r"class=heap-invariant"),
         step("heap-families-x86", "c10-x86", "c10-x86", 0, 0, viol=r"class=heap-invariant"),
         step("heapops-x86", "heapops-x86", "heapops-x86", 300, 6000, viol=r"class=heapops-mismatch"),
+        # the same decision on the REAL AArch64 / RISC-V instruction lists (Sem/A64Heap.v, Sem/RVHeap.v)
+        step("heap-a64", "heapgen-a64", "heap-a64", 60, 3000, shards_thorough=12, viol=r"class=heap-invariant"),
+        step("heap-families-a64", "c10-a64", "c10-a64", 0, 0, viol=r"class=heap-invariant"),
+        step("heap-rv", "heapgen-rv", "heap-rv", 60, 3000, shards_thorough=12, viol=r"class=heap-invariant"),
+        step("heap-families-rv", "c10-rv", "c10-rv", 0, 0, viol=r"class=heap-invariant"),
     ],
     rule="(1) every program of the corpus (examples, testsuite, corpus/fun, corpus/c10) compiled by the real pipeline; the REAL x86-64 code is "
          "executed on the ISA model for 4 argument tuples (3 iteration counts for the loop families) in lockstep with the AxCut machine; at every "
@@ -18,19 +23,32 @@ PLAN = dict(
          "kinds, load in both modes, mov, load_immediate) and is run on the ISA model; after EVERY operation abs_heap of the machine state "
          "(headers, pointer slots, heap/free registers) must equal Heap.step of the abstract state, the pointer returned by store / the pointers "
          "delivered by load must be those of alloc_object / obj_fields, nothing may be written at or above the abstract frontier, and inv_check "
-         "must hold with the live pointer variables as roots. Tags: multiblock, release, share, deferred, recycle, spill",
+         "must hold with the live pointer variables as roots. Tags: multiblock, release, share, deferred, recycle, spill. "
+         "(3) heap-a64 / heap-rv (+ the loop families corpus/c10, corpus/heapwide for 2/8/32 iterations): as (1) on the REAL AArch64 and RISC-V "
+         "instruction lists run on Sem/A64Sem.v / Sem/RVSem.v (allocator registers X0/X1 resp. X2/X3, roots = first temporary of every live "
+         "non-integer variable: registers, and on AArch64 spill slots [sp + stack_offset]); inputs: the corpus, corpus/axlin, n programs of which "
+         "about two thirds come from the direct linear-AxCut generator in its heap-focused configuration (contexts of 11-18 variables on AArch64 - "
+         "the register file holds 13 - resp. 4-13 on RISC-V - capacity 14, no spilling -, let/switch/create/invoke dominate, objects are dropped "
+         "and shared by substitutions), n/4 random Fun programs and up to 56 programs of the directed family `wide` (lists and trees built, mapped, "
+         "summed, shared and dropped while 4-17 integers stay live). RISC-V has no print: main's println_i64(e); 0 is rewritten to e, remaining "
+         "print statements are removed from the linear program; programs beyond 14 live variables are SKIPped (the code generator panics). "
+         "Tags: spillreuse (AArch64: acquire_block INTO A SPILL SLOT executed while the reuse list has a second element) / reuse (RISC-V), "
+         "deferred (non-empty deferred list at a boundary), spills, liveN, markedN (verdicts from the marked model code; 0 so far: indirect "
+         "branches land on the statement marks in front of their target, so the lockstep is exact)",
     explanation="theorems (abstract allocator Model/Heap.v, Proof/HeapMore.v, Proof/HeapTrace.v): the counting invariant and its strengthening InvA "
                 "(exact partition of the blocks below the frontier, non-negative counts, acyclic slots) hold initially and are preserved by share, "
                 "erase, acquire (3 cases), single-block and chained-object allocation, destructive and non-destructive load of single-block and "
                 "chained objects, hence by every operation trace whose preconditions hold (example trace given); derived: classification of every "
                 "block below the frontier, no leak, no use after release, no double release. Refinement theorems to the x86-64 code on the ISA "
                 "semantics for share_block_n, erase_block, release_block and acquire_block (all three cases) (Proof/X86Mem.v). Link to programs: execution of the implementation's code with the "
-                "invariant checked at every boundary; link of the other operations' code to the abstract model: heapops-x86",
+                "invariant checked at every boundary (x86-64, AArch64, RISC-V); link of the other operations' code to the abstract model: heapops-x86",
     assumptions=["Model/Heap.v abstracts memory.rs block-granularly; share_block_n, erase_block, release_block and acquire_block are proved to refine it on the ISA model, "
                  "store/load are tied to it by the operation-level correspondence heapops-x86, not by proof",
                  "the trace theorem takes the well-formedness of loaded objects (continuation blocks with header 0, non-null links) as a precondition; "
                  "its derivation from typing of AxCut programs is not proved",
-                 "Sem/X86Sem.v, Sem/AxSem.v, Sem/HeapCheck.v"],
-    trusted=["coq/Sem/HeapCheck.v (executable invariant)", "coq/Sem/X86Sem.v", "coq/Sem/AxSem.v + Sem/AxTrace.v (roots via lockstep)",
+                 "Sem/X86Sem.v, Sem/A64Sem.v, Sem/RVSem.v, Sem/AxSem.v, Sem/HeapCheck.v",
+                 "on RISC-V the entry state (X2 = heap base, X3 = one block further) and the 64-bit reading of LW/SW are those of C08"],
+    trusted=["coq/Sem/HeapCheck.v (executable invariant)", "coq/Sem/X86Sem.v", "coq/Sem/A64Sem.v", "coq/Sem/RVSem.v",
+             "coq/Sem/AxSem.v + Sem/AxTrace.v (roots via lockstep)", "coq/Sem/HeapLock.v, Sem/X86Heap.v, Sem/A64Heap.v, Sem/RVHeap.v (lockstep runners)",
              "coq/Model/RunHeapOps.v (lockstep driver of heapops-x86), harness/src/cmd_heapops.rs (generator)"],
 )
